@@ -156,7 +156,8 @@ class Algebra:
             assert self.basis == sorted(self.basis, key=len)  # The basis has to be ordered by grade.
             assert all(eJ[0] == 'e' for eJ in self.basis)
             vecs = [eJ[1:] for eJ in self.basis if len(eJ) == 2]
-            self.start_index = int(min(vecs), 16)
+            if vecs:
+                self.start_index = int(min(vecs), 16)
             vec2bin = {vec: 2 ** j for j, vec in enumerate(vecs)}
             self.canon2bin = {eJ: reduce(operator.xor, (vec2bin[v] for v in eJ[1:]), 0)
                               for eJ in self.basis}
